@@ -987,33 +987,35 @@ def run_s_scenario(sc: Dict[str, Any]) -> List[Tuple[str, Tuple[str, str], Optio
     if db is None:
         return results
     owner = probe["owner"]
-    for target in RETARGETS:
-        if target not in model.layers:
-            continue
-        db2, err2 = (db, None) if target == RETARGETS[0] else try_load(world)
-        if db2 is None:
-            continue
-        old = oe.strict_mode
-        oe.strict_mode = True
-        try:
+    old = oe.strict_mode
+    oe.strict_mode = True
+    try:
+        for target in RETARGETS:
+            if target not in model.layers:
+                continue
+            if db is None:  # the previous step raised: the database may be half re-targeted, start from a fresh one
+                db, _ = try_load(world)
+                if db is None:
+                    break
             for phase, tgt in (("retarget", target), ("restore", owner)):
                 exp = model.expect_retargeted(probe, tgt) if phase == "retarget" else model.snref(owner, probe)
                 e2: Optional[BaseException] = None
                 try:
-                    retarget_snrefs(db2, db2.diag_layers[tgt])
+                    retarget_snrefs(db, db.diag_layers[tgt])
                 except Exception as e:  # noqa: BLE001
                     e2 = e
                 in_scope = owner in model.retarget_scope(tgt)
                 if e2 is not None and not in_scope and exp[0] == "BIND":
                     # a failure caused by another layer's references is not about this probe
                     exp = ("DONTCARE", "retargeting failed outside the probe's scope")
-                g = look(db2) if e2 is None else None
+                g = look(db) if e2 is None else None
                 results.append((f"{phase}:{rel_class(owner, 'x@' + tgt)}", exp, judge(exp, e2 is None, g, e2),
                                 ("bound:" + str(g)) if e2 is None else ("raised:" + type(e2).__name__)))
                 if e2 is not None:
+                    db = None
                     break
-        finally:
-            oe.strict_mode = old
+    finally:
+        oe.strict_mode = old
     return results
 
 
